@@ -197,6 +197,8 @@ class Eval(object):
         elif k == 'ret':
             raise _Ret(self.ev_or_lv(st['e'], fn, env) if st.get('e') is not None else None)
         elif k == 'if':
+            if st.get('cv'):      # condition variable
+                self.stmt({'s': 'decl', 'vars': [st['cv']]}, fn, env)
             c = self.truth(st['c'], fn, env)
             if c:
                 self.stmt(st['t'], fn, env)
